@@ -14,3 +14,8 @@ claim('C08',
       'dispatch-table extraction from resolved MIR matches (enum discriminants, TryFrom<u8>, from_term, to_term, into_term) compared with each other and with spec/control_messages.json; interval-guarded CAST and index obligations',
       'All 30 numbered operations and the Generic fallback are enumerated from the compiler\'s MIR: tag numbers (enum = TryFrom = protocol table), the arity guard and element->field map of from_term, the tag and field order written by to_term and into_term (mutually and against the protocol table), lossless numeric conversion (CAST) and guarded indexing (PANIC). These are necessary conditions of C08 and cover its tabular part completely; value equality of opaque fields follows from their being moved/cloned unmodified (provenance), not from execution.',
       NOTE, 'DESIGN.md §4 C08')
+
+claim('C16',
+      'lock-guard typestate dataflow (must-hold analysis over MIR moves/drops), who-may-call on escaping accessors, per-path store/provenance rules, atomic-RMW discipline',
+      'Every atomic access to the pid counters in the workspace is shown to lie inside the live range of the wrap_lock guard on all paths (forward must-dataflow of the guard through moves and drops); the two accessors that leak a reference to a counter have no caller; in allocate each path to a pid construction performs exactly one next_id store whose value is loaded-id+1 (or the reset together with a serial advance) and the returned id/serial/creation have the matching provenance; reference_counter is only touched by atomic fetch_add and each reference word comes from its own fetch_add. Given mutual exclusion, uniqueness reduces to a sequential argument (ids strictly increase between wraps, the serial changes at each wrap) which is stated, not mechanised; interleavings are not explored.',
+      NOTE, 'DESIGN.md §4 C16')
